@@ -62,7 +62,8 @@ def match_known(pid, res, known):
         if e.get("status") != "known" or e.get("property") != pid:
             continue
         classes = e.get("classes") or [e.get("class")]
-        if res["cls"] not in classes:
+        prefixes = e.get("class_prefixes") or []
+        if res["cls"] not in classes and not any(str(res["cls"]).startswith(p) for p in prefixes):
             continue
         sig = e.get("signature", {})
         if all(res["sig"].get(k) == v for k, v in sig.items()):
